@@ -93,6 +93,8 @@ def check_snapshot_list(ctx):
 
 
 def check(ctx):
+    from . import tablefmt as _tf
+    _tf.check_filter_offsets(ctx)   # a filter consulted by a lookup holds every key of its block and is probed as built
     c01.check_compaction_drop(ctx)
     check_iter_filter(ctx)
     check_snapshot_list(ctx)
